@@ -362,7 +362,28 @@ func genText(t *rapid.T) TextCase {
 			idx = ri + 1
 		}
 		tc := TextCase{Kind: "mutated"}
-		switch rapid.IntRange(0, 6).Draw(t, "mutation") {
+		switch rapid.IntRange(0, 7).Draw(t, "mutation") {
+		case 7:
+			// two edits at once: one required member deleted, another one present twice (or three times)
+			other := rapid.IntRange(0, 9).Draw(t, "dupOther")
+			oi := other
+			if oi >= 9 {
+				oi++
+			}
+			if oi == idx {
+				oi = (idx + 1) % 12
+				if oi == 9 {
+					oi = 10
+				}
+			}
+			tc.Mutation = "delete+dup:" + ms[idx].Name + "+" + ms[oi].Name
+			dup := ms[oi]
+			ntimes := rapid.IntRange(1, 2).Draw(t, "dupTimes")
+			ms = append(ms[:idx:idx], ms[idx+1:]...)
+			for k := 0; k < ntimes; k++ {
+				ms = append(ms, dup)
+			}
+			tc.MustFail = true
 		case 6:
 			// the member is deleted but its exact name still occurs in the text as data
 			name := ms[idx].Name
@@ -538,7 +559,7 @@ func execText(c TextCase) (vh.Outcome, error) {
 func TestC05Text(t *testing.T) {
 	vh.Run(t, vh.Spec[TextCase]{
 		Property: "C05", Name: "TestC05Text",
-		Rule: "texts: 20% valid-by-construction (shuffled members, extra members, whitespace inside and around the object; must decode to the members' values), 50% encoder-shaped text with one required member deleted (also with its exact name still present as a string value, principal or nested key) / case-renamed / duplicated (same, conflicting, case variant) / retyped, 10% inconsistent-or-unsupported attribute sets, 10% other JSON values, 10% arbitrary bytes. Oracle on acceptance: version supported, all 11 exact required names among the top-level members (independent token walk), consistency rules, re-encodes to a fixed point; constructed-to-fail texts must be refused. Non-trivial: single-mutation texts; distinct by text hash.",
+		Rule: "texts: 20% valid-by-construction (shuffled members, extra members, whitespace inside and around the object; must decode to the members' values), 50% encoder-shaped text with one required member deleted (also with its exact name still present as a string value, principal or nested key) / case-renamed / duplicated (same, conflicting, case variant) / retyped, or one member deleted while another one is present two or three times, 10% inconsistent-or-unsupported attribute sets, 10% other JSON values, 10% arbitrary bytes. Oracle on acceptance: version supported, all 11 exact required names among the top-level members (independent token walk), consistency rules, re-encodes to a fixed point; constructed-to-fail texts must be refused. Non-trivial: single-mutation texts; distinct by text hash.",
 		Gen:  genText, Exec: execText,
 	})
 }
